@@ -308,11 +308,97 @@ func init() {
 		Quick: []hrun{
 			joe("vhC06Joe", "NSUB", 1, "NMSG", 1, "NSHUT", 0, "CANCEL", 1, "TOPICS", 0),
 			joe("vhC06Joe", "NSUB", 1, "NMSG", 1, "NSHUT", 1, "CANCEL", 1, "TOPICS", 0),
+			joe("vhC06Joe", "NSUB", 2, "NMSG", 1, "NSHUT", 1, "CANCEL", 0, "TOPICS", 0),
+			joe("vhC06Joe", "NSUB", 1, "NMSG", 1, "NSHUT", 0, "CANCEL", 1, "TOPICS", 0, "REPLAYER", 2),
 		},
 		Thorough: []hrun{
+			joe("vhC06Joe", "NSUB", 2, "NMSG", 1, "NSHUT", 0, "CANCEL", 1, "TOPICS", 0),
 			joe("vhC06Joe", "NSUB", 1, "NMSG", 2, "NSHUT", 1, "CANCEL", 1, "TOPICS", 0),
+			joe("vhC06Joe", "NSUB", 2, "NMSG", 2, "NSHUT", 0, "CANCEL", 0, "TOPICS", 0),
 		},
 		Labels: []string{"C06/", "panic:"},
-		Bounds: map[string]string{"quick": "", "thorough": ""},
+		Bounds: map[string]string{
+			"quick":    "every interleaving of visible operations (channel send/receive/select/close; invisible steps commute) of: {1 subscriber, 1 message, cancellation of its context}, the same plus a Shutdown call, {2 subscribers, 1 message, Shutdown}, {1 subscriber, 1 message, cancellation, a replayer whose Put/Replay may fail or panic}; every Send and Flush may fail (symbolic outcome per call)",
+			"thorough": "{2 subscribers, 1 message, both cancellable}, {1 subscriber, 2 messages, cancellation, Shutdown}, {2 subscribers, 2 messages}",
+		},
+		Outside: []string{"more goroutines / messages than the configuration", "Go's memory model below channel operations (sequential consistency of channel and Once operations is assumed; Joe shares no plain variables between goroutines)", "scheduler fairness and timing; GOMAXPROCS as such (every interleaving of visible operations subsumes it for race-free code)"},
+		Oracle:  "monitors in harness/sse_joe.go: no unrecovered panic in any goroutine; no Send/Flush on a subscriber after its Subscribe returned; Subscribe returns its own first Send/Flush/replay error, nil only after cancellation or shutdown was requested, ErrProviderClosed only after shutdown",
+	}
+	checks["C07"] = &propCheck{
+		ID: "C07",
+		Quick: []hrun{
+			joe("vhC07Joe", "NSUB", 1, "NMSG", 1, "NSHUT", 1, "CANCEL", 1, "TOPICS", 0),
+			joe("vhC07Joe", "NSUB", 1, "NMSG", 1, "NSHUT", 2, "CANCEL", 0, "TOPICS", 0),
+			joe("vhC07Joe", "NSUB", 2, "NMSG", 1, "NSHUT", 1, "CANCEL", 0, "TOPICS", 0, "FAULTS", 1),
+			joe("vhC07Joe", "NSUB", 2, "NMSG", 0, "NSHUT", 0, "CANCEL", 1, "TOPICS", 0),
+		},
+		Thorough: []hrun{
+			joe("vhC07Joe", "NSUB", 2, "NMSG", 1, "NSHUT", 2, "CANCEL", 0, "TOPICS", 0),
+			joe("vhC07Joe", "NSUB", 1, "NMSG", 2, "NSHUT", 1, "CANCEL", 1, "TOPICS", 0, "FAULTS", 1),
+			joe("vhC07Joe", "NSUB", 2, "NMSG", 1, "NSHUT", 0, "CANCEL", 1, "TOPICS", 0),
+		},
+		Labels: []string{"C07/", "panic:"},
+		Bounds: map[string]string{
+			"quick":    "every interleaving of visible operations of: {1 subscriber, 1 message, cancel, 1 Shutdown}, {1 subscriber, 1 message, 2 concurrent Shutdowns}, {2 subscribers, 1 message, 1 Shutdown, failing Send/Flush}, {2 cancellable subscribers, no Shutdown}; every caller may be the one that runs Joe's lazy initialisation",
+			"thorough": "{2 subscribers, 1 message, 2 Shutdowns}, {1 subscriber, 2 messages, cancel, Shutdown, failures}, {2 cancellable subscribers, 1 message}",
+		},
+		Outside: []string{"Shutdown contexts that expire (the context passed to Shutdown never ends here)", "subscribers whose Send blocks (excluded by the property)", "liveness under an unfair scheduler with unbounded publishers"},
+		Oracle:  "at quiescence (no transition enabled): with a Shutdown every goroutine has finished - every Subscribe and Publish returned (nil, own error, replayer error or ErrProviderClosed), exactly one Shutdown returned nil and the others ErrProviderClosed, Joe's goroutine exited (closed channel closed); without Shutdown at most Joe's own idle goroutine remains once every subscriber was cancelled; no crash",
+	}
+	checks["C03"] = &propCheck{
+		ID: "C03",
+		Quick: []hrun{
+			joe("vhC03Joe", "NSUB", 2, "NMSG", 2, "NSHUT", 0, "CANCEL", 0, "TOPICS", 1),
+			joe("vhC03Joe", "NSUB", 1, "NMSG", 2, "NSHUT", 0, "CANCEL", 1, "TOPICS", 0, "FAULTS", 1),
+			joe("vhC03Joe", "NSUB", 2, "NMSG", 1, "NSHUT", 1, "CANCEL", 0, "TOPICS", 0),
+		},
+		Thorough: []hrun{
+			joe("vhC03Joe", "NSUB", 2, "NMSG", 2, "NSHUT", 0, "CANCEL", 0, "TOPICS", 1, "NTOPICS", 2),
+			joe("vhC03Joe", "NSUB", 2, "NMSG", 1, "NSHUT", 0, "CANCEL", 1, "TOPICS", 0),
+			joe("vhC03Joe", "NSUB", 3, "NMSG", 1, "NSHUT", 0, "CANCEL", 0, "TOPICS", 1),
+		},
+		Labels: []string{"C03/", "panic:"},
+		Bounds: map[string]string{
+			"quick":    "every interleaving of visible operations of: {2 subscribers, 1 publisher x 2 messages, symbolic one-byte topics on both sides}, {1 cancellable subscriber, 2 messages, failing Send/Flush}, {2 subscribers, 1 message, Shutdown}; a recording contract replayer is the linearisation witness (order of Put and of registration)",
+			"thorough": "{2 subscribers, 2 messages, up to 2 topics each}, {2 cancellable subscribers, 1 message}, {3 subscribers, 1 message}",
+		},
+		Outside: []string{"more goroutines / messages than the configuration; several publishers (one publisher thread: program order)", "Joe with the real replayers (their contract is decided in C08/C09)"},
+		Oracle:  "per (subscriber, message): at most one Send; a Send only if the topics intersect (independent intersection) and in Joe's Put order; exactly one Send if the subscriber was registered before the message was accepted, matches, had not failed and had not been asked to leave; every successful Send followed by that subscriber's Flush before Joe does anything else; publisher program order kept",
+	}
+	checks["C17"] = &propCheck{
+		ID: "C17",
+		Quick: []hrun{
+			joe("vhC17Joe", "NSUB", 2, "NMSG", 1, "NSHUT", 0, "CANCEL", 0, "TOPICS", 0, "REPLAYER", 1),
+			joe("vhC17Joe", "NSUB", 1, "NMSG", 2, "NSHUT", 0, "CANCEL", 0, "TOPICS", 0, "REPLAYER", 2),
+		},
+		Thorough: []hrun{
+			joe("vhC17Joe", "NSUB", 2, "NMSG", 2, "NSHUT", 0, "CANCEL", 0, "TOPICS", 0, "REPLAYER", 1),
+			joe("vhC17Joe", "NSUB", 2, "NMSG", 1, "NSHUT", 0, "CANCEL", 0, "TOPICS", 0, "REPLAYER", 2),
+		},
+		Labels: []string{"C17/", "C06/", "panic:"},
+		Bounds: map[string]string{
+			"quick":    "every interleaving of: {2 subscribers whose every Send/Flush may fail, 1 message}, {1 subscriber, 2 messages, a replayer whose every Put/Replay returns normally, returns an error or panics}",
+			"thorough": "{2 subscribers, 2 messages, failing clients}, {2 subscribers, 1 message, failing/panicking replayer}",
+		},
+		Outside: []string{"as C03"},
+		Oracle:  "the C03 delivery obligations hold for every subscriber that has not itself failed (in particular for the message during whose fan-out another subscriber failed, in either iteration order); exactly the failing subscriber's Subscribe returns its error; a Put error is what that Publish returns while the message is still delivered; after a replayer panic the replayer is never called again, the panicking Publish returns nil and delivery continues",
+	}
+	checks["C04"] = &propCheck{
+		ID: "C04",
+		Quick: []hrun{
+			joe("vhC04Joe", "NSUB", 1, "NMSG", 2, "TOPICS", 0),
+			joe("vhC04Joe", "NSUB", 1, "NMSG", 2, "TOPICS", 1),
+		},
+		Thorough: []hrun{
+			joe("vhC04Joe", "NSUB", 1, "NMSG", 3, "TOPICS", 0),
+			joe("vhC04Joe", "NSUB", 2, "NMSG", 2, "TOPICS", 0),
+		},
+		Labels: []string{"C04/", "panic:"},
+		Bounds: map[string]string{
+			"quick":    "every interleaving of 1 resuming Subscribe (presenting no ID, the ID of either message, or a never-issued ID) with 1 publisher x 2 messages, default or symbolic one-byte topics; the replayer is the contract of harness/sse_oracle (C08/C09 decide that the real replayers implement it, including 'the newest ID replays nothing')",
+			"thorough": "3 messages; 2 resuming subscribers with 2 messages",
+		},
+		Outside: []string{"Joe composed with the real FiniteReplayer/ValidReplayer in one run (assume-guarantee through the replayer contract)", "buffer capacity effects (decided in C08/C09)"},
+		Oracle:  "the Send sequence of the resuming subscriber equals: the matching messages put after the presented one (when that one was put before the subscription was processed) or after its registration otherwise, each once, in Put order; every delivered message is the ID-carrying copy returned by Put",
 	}
 }
